@@ -7,7 +7,7 @@ import core, layout, store_common as sc
 ID = 'C16'
 GENMODS = ['gen_c16', 'gen_c10', 'gen_c18', 'gen_store']
 TARGET = 'props/C16.vo'
-PROOF_FILES = ['proof/C16.v', 'proof/IniProofs.v', 'proof/IniFile.v', 'proof/C16Text.v', 'props/C16.v']
+PROOF_FILES = ['proof/C16.v', 'proof/IniProofs.v', 'proof/IniFile.v', 'proof/C16Text.v', 'proof/IniFile2.v', 'proof/C14Label.v', 'proof/StoreText.v', 'props/C16.v']
 AXIOMS = []
 TRUSTED = [
     'Coq 8.16.1 kernel; no axioms; vm_compute evaluates validate for the correspondence',
@@ -243,13 +243,13 @@ def mutate(g, m0):
     elif op == 'no_quadrupole': m['quadrupole'] = None
     elif op == 'bad_pair_key':
         if not m['pair']: return None
-        e = g.choice(m['pair']); a, b = e['key'].split('-'); e['key'] = g.choice([a + b, '%s-%s-%s' % (a, b, a), a + '>' + b]); e['ok'] = False
+        e = g.choice(m['pair']); a, b = e['key'].split('-'); e['key'] = g.choice([a + b, '%s-%s-%s' % (a, b, a), a + '>' + b, '-' + b, a + '-', a + ' - ']); e['ok'] = False     # also a missing species (fix fdfc609)
     elif op == 'bad_dipole_key':
         e = g.choice(m['dipole']); e['key'] = e['key'].replace('-', ''); e['ok'] = False
     elif op == 'density_key_style':
         e = g.choice(m['density'])
         if e['style'] == 'plain': e['key'] = '%s->%s' % (e['key'], e['key']); e['style'] = 'arrow'
-        else: e['key'] = g.choice([e['key'].split('->')[0], e['key'] + '->' + e['key'].split('->')[0]]); e['style'] = 'plain' if '->' not in e['key'] else 'bad'
+        else: e['key'] = g.choice([e['key'].split('->')[0], e['key'] + '->' + e['key'].split('->')[0], '->' + e['key'].split('->')[1], e['key'].split('->')[0] + '->']); e['style'] = 'plain' if '->' not in e['key'] else 'bad'
         if m['target'] not in ('setfl', 'setfl_fs', 'eam_adp') and e['style'] == 'arrow': return None   # an 'A->B' species label is only refused where atomic numbers are needed
     elif op in ('table_few_points', 'table_not_increasing', 'table_unknown_interpolation'):
         tb = m['tables'][g.choice(sorted(m['tables']))]; tb['state'] = {'table_few_points': 'few', 'table_not_increasing': 'order', 'table_unknown_interpolation': 'interp'}[op]
@@ -418,6 +418,27 @@ def correspond(ctx):
         if tres[2 * k] != tres[2 * k + 1]:
             dis.append({'case': {'kind': 'store_text', 'text': t}, 'what': 'the definition text %r read and resolved is %r, the tree given to validate is %r' % (t, tres[2 * k][:40], tres[2 * k + 1][:40])})
     dist['definition_texts_read'] = len(goals)
+    # species keys (model/ItemLabel.v: pair_key, fs_key) against _pair_species_func / the FS species_func on key texts as the parser sees them
+    from atsim.potentials.config import ConfigParser
+    from atsim.potentials.config._common import ConfigurationException
+    kcp = ConfigParser(io.StringIO('[Pair]\n'))
+    keys = ['Al-Cu', 'Al-Al', 'O-U', 'Al', 'Al-Cu-O', '-Cu', 'Al-', '-', '', 'Al->Cu', 'Al->', '->Cu', '->', 'Al->Cu->O', 'Al>Cu', 'A - B', ' -B', 'A- ', 'a-->b', 'a->-b', 'a->b-c']
+    keys += [''.join(g.choice('AlCu->- ') for _ in range(g.randint(0, 8))) for _ in range(150)]
+    PRE_KEY = 'From Coq Require Import List ZArith.\nFrom V Require Import lib.Common model.Ini model.ItemLabel.\nImport ListNotations.\nLocal Open Scope Z_scope.\n' \
+              'Definition enc_s (s : list Z) : list Z := Z.of_nat (length s) :: s.\nDefinition enc_k (o : option (list Z * list Z)) : list Z := match o with Some (a, b) => 1 :: enc_s a ++ enc_s b | None => [0] end.\n'
+    zs_ = lambda t: '[%s]' % '; '.join('%d' % ord(ch) for ch in t)
+    kres = sc.eval_results('C16k', PRE_KEY, [x for k in keys for x in ('(enc_k (pair_key %s))' % zs_(k), '(enc_k (fs_key %s))' % zs_(k))], chunk=120)
+    def dec_k(zs):
+        if zs[0] == 0: return None
+        n = zs[1]; a = ''.join(chr(x) for x in zs[2:2 + n]); m = zs[2 + n]; return (a, ''.join(chr(x) for x in zs[3 + n:3 + n + m]))
+    for j, k in enumerate(keys):
+        try: got_p = tuple(kcp._pair_species_func(k))
+        except ConfigurationException: got_p = None
+        try: got_f = tuple(kcp._parse_eam_fs_density_line(k, 'as.zero').species)
+        except ConfigurationException: got_f = None
+        if dec_k(kres[2 * j]) != got_p: dis.append({'case': {'kind': 'store_text', 'key': k}, 'what': 'pair key %r: model %r, _pair_species_func %r' % (k, dec_k(kres[2 * j]), got_p)})
+        if dec_k(kres[2 * j + 1]) != got_f: dis.append({'case': {'kind': 'store_text', 'key': k}, 'what': 'A->B key %r: model %r, species_func %r' % (k, dec_k(kres[2 * j + 1]), got_f)})
+    dist['species_keys'] = len(keys)
     return {'evaluations': len(cases) + istats['ini_files'], 'cases': cases, 'nontrivial': core.distinct_count([c for c in cases if c['expect'] == 'CfgErr']) + core.distinct_count([c for c in cases if c['expect'] == 'Ok']),
             'rule': 'well-formed models over all eleven targets (pair / EAM / Finnis-Sinclair / ADP; 1..3 species; custom and table forms; definitions to depth 2 with ranges, sum/product/pow/trans/spline, modifiers as spline ends) and one catalogue '
                     'malformation of each (%d operators: targets, sections, keys, key styles, table data, labels, parameter counts, modifier names and arities, every spline rule): validate vs Configuration().read, a sample through the potable CLI '
